@@ -14,6 +14,7 @@ import (
 	"encoding/json"
 	"fmt"
 	"io"
+	"strings"
 	"sync"
 	"time"
 
@@ -31,6 +32,9 @@ type c04RawSpec struct {
 	Mode  string       `json:"mode"`
 	Calls []c04RawCall `json:"calls"`
 	DupOf int          `json:"dup_of"` // > 0: at 1 ms the id of this call is sent again with another request (refused: the id is in flight)
+	// Stray: requestIds of cancellation notices (sent at 1 ms) that name no request in flight but LOOK like one that
+	// is: the number as a string, the digit string as a number, the number with a fraction. They cancel nothing.
+	Stray []string `json:"stray,omitempty"`
 }
 
 // groups of ids that a lossy conversion would confuse
@@ -67,6 +71,24 @@ func genC04Raw(r *vh.Rand) c04RawSpec {
 	}
 	if r.Chance(1, 3) {
 		s.DupOf = s.Calls[r.Intn(len(s.Calls))].N
+	}
+	if r.Bool() {
+		for _, call := range s.Calls {
+			var alikes []string
+			if strings.HasPrefix(call.ID, `"`) {
+				if inner := strings.Trim(call.ID, `"`); inner != "" && strings.Trim(inner, "0123456789") == "" && (inner == "0" || inner[0] != '0') {
+					alikes = append(alikes, inner)
+				}
+			} else {
+				alikes = append(alikes, `"`+call.ID+`"`, call.ID+".5")
+			}
+			for _, a := range alikes {
+				if !used[a] && r.Bool() {
+					used[a] = true
+					s.Stray = append(s.Stray, a)
+				}
+			}
+		}
 	}
 	return s
 }
@@ -125,6 +147,18 @@ func runC04Raw(c *vh.Case, spec c04RawSpec) {
 				}
 			}
 		}()
+	}
+	if len(spec.Stray) > 0 {
+		wg.Add(1)
+		go func() {
+			defer wg.Done()
+			time.Sleep(ms(1))
+			for _, id := range spec.Stray {
+				log.Add("stray-cancel", "id", id)
+				send(fmt.Sprintf(`{"jsonrpc":"2.0","method":"notifications/cancelled","params":{"requestId":%s,"reason":"not yours"}}`, id))
+			}
+		}()
+		c.Count("stray_cancellation_notices", len(spec.Stray))
 	}
 	for _, call := range spec.Calls {
 		if call.CancelAt < 0 {
